@@ -39,6 +39,18 @@ if ! go build -tags verif $RACE -o "$BUILD/$id_lc" "./cmd/$id_lc" 2>"$BUILD/buil
   exit 3
 fi
 export GORACE="${GORACE:-halt_on_error=0 exitcode=0 atexit_sleep_ms=0 log_path=$BUILD/race}"
-"$BUILD/$id_lc"
-rc=$?
+"$BUILD/$id_lc" 2>"$BUILD/stderr.log" | tee "$BUILD/stdout.log"
+rc=${PIPESTATUS[0]}
+if [ "$rc" != 0 ] && [ "$rc" != 1 ] && ! grep -q '^INCONCLUSIVE property=' "$BUILD/stdout.log"; then
+  # the monitor process itself died (panic / fatal error in the code under test outside any guard,
+  # or killed): that is an observation about the real code, not a pass
+  mkdir -p "$HERE/replays/$ID"
+  W="$HERE/replays/$ID/process-death_seed${VERIF_SEED}_${VERIF_TIER}.txt"
+  { echo "check process for $ID exited with status $rc"; echo "--- stderr tail ---"; tail -c 6000 "$BUILD/stderr.log"; echo "--- stdout tail ---"; tail -c 2000 "$BUILD/stdout.log"; } >"$W"
+  tail -c 1500 "$BUILD/stderr.log" >&2
+  echo "VIOLATION property=$ID replay=$W"
+  echo "  class=process-death detail=the monitor process died with status $rc (see replay file)"
+  exit 1
+fi
+[ -s "$BUILD/stderr.log" ] && [ "$rc" != 0 ] && tail -c 3000 "$BUILD/stderr.log" >&2
 exit $rc
